@@ -1,2 +1,54 @@
-(* C02 (statements follow) *)
-From GJS Require Import Base Regex Schema GoType Exec.
+(* C02 - valid documents are accepted and decoded without loss.
+   Statements only; every proof is `exact <lemma>`; Print Assumptions under each.
+   Proved here: the value-level half (no truncation, coercion or precision loss at any scalar,
+   binding of every key to its own field) and that validators reject only on the stated constraints
+   (C05_normalize, C05_validator_*, C06_validator, C07_level are equalities with the specification,
+   so they accept every valid value).  The statement "every valid document is accepted" for whole
+   schemas (C02_full below) is decided on the implementation by the correspondence run together with
+   the reference semantics Spec/Valid.v; its general proof over all schemas is not done (partial). *)
+From GJS Require Import Base Regex Schema GoType Gen Exec Valid ExecP GenP CoreP.
+
+Definition C02_full : Prop :=
+  forall fmt_ok idf cf defs root name p t j,
+    gen_file idf cf defs root name = Done p -> p_root p = Some t ->
+    valid fmt_ok defs 100 root j = true -> exists v, dec fmt_ok (p_defs p) exec_fuel t j = Ok v.
+
+Theorem C02_string : forall fmt_ok env f s, dec fmt_ok env (S f) TString (JStr s) = Ok (GS s).
+Proof. exact dec_string_lossless. Qed.
+Print Assumptions C02_string.
+Theorem C02_boolean : forall fmt_ok env f b, dec fmt_ok env (S f) TBool (JBool b) = Ok (GB b).
+Proof. exact dec_bool_lossless. Qed.
+Print Assumptions C02_boolean.
+Theorem C02_number : forall fmt_ok env f n, dec fmt_ok env (S f) TFloat (JNum n) = Ok (GF (nq n)).
+Proof. exact dec_float_lossless. Qed.
+Print Assumptions C02_number.
+Theorem C02_integer : forall fmt_ok env f k z, in_range k z = true -> dec fmt_ok env (S f) (TInt k) (JInt z) = Ok (GI z).
+Proof. exact dec_int_lossless. Qed.
+Print Assumptions C02_integer.
+Theorem C02_format : forall fmt_ok env f k s, fmt_ok k s = true -> dec fmt_ok env (S f) (TFmt k) (JStr s) = Ok (GFm (Some s)).
+Proof. exact dec_fmt_lossless. Qed.
+Print Assumptions C02_format.
+Theorem C02_untyped : forall fmt_ok env f j, j <> JNull -> dec fmt_ok env (S f) TIface j = Ok (GJ j).
+Proof. exact dec_iface_lossless. Qed.
+Print Assumptions C02_untyped.
+Theorem C02_optional : forall fmt_ok env f u j v, j <> JNull -> dec fmt_ok env f u j = Ok v -> dec fmt_ok env (S f) (TPtr u) j = Ok (GP v).
+Proof. exact dec_ptr_lossless. Qed.
+Print Assumptions C02_optional.
+
+(* every declared key lands in the field generated for it (the generator binds field and key: GenP.object_field_bound) *)
+Theorem C02_binding : forall decf zf fs kv fl xj x st,
+  NoDup (map f_name fs) -> In fl fs -> f_addl fl = false -> f_name fl <> [] ->
+  lookup (f_json fl) kv = Some xj -> decf (f_ty fl) xj = Ok x ->
+  plain_fields decf zf fs (JObj kv) = Ok st -> get_plain (f_name fl) st = Some x.
+Proof. exact field_binding. Qed.
+Print Assumptions C02_binding.
+Theorem C02_field_for_every_property : forall idf cf defs f self sub s scope t b k p,
+  plain_object s -> gen idf cf defs (S f) MType self sub s scope = Done (t, b) -> In (k, p) (s_props s) ->
+  exists fs plan fl ty bp, t = TStruct [] fs (Some plan) /\ In fl fs /\ f_json fl = k /\ f_addl fl = false /\
+    gen idf cf defs f MInline self false p (scope ++ f_name fl) = Done (ty, bp) /\ (f_ty fl = ty \/ f_ty fl = TPtr ty).
+Proof. exact object_field_bound. Qed.
+Print Assumptions C02_field_for_every_property.
+
+(* refuted in full (D12): an integer written 5.0 is valid JSON Schema `integer` but is rejected *)
+Theorem C02_refuted_integer_literal : exists j, type_matches SInteger j = true /\ is_ok (dec (fun _ _ => true) [] 5 (TInt KInt) j) = false.
+Proof. exists (JNum (mkNum 5 false)). vm_compute. split; reflexivity. Qed.
